@@ -403,9 +403,11 @@ class Arr:
         return self ** o
 
     def __rpow__(self, base):
+        if builtins.any(isinstance(e, core.SLog) for e in self.a.flat):
+            return self._new(_uf(lambda e: base ** e, 1)(self.a))        # 2 ** log-domain value = its linear value
         if has_sym(self.a) or isinstance(base, Sym):
             raise Inconclusive("symbolic exponent not modelled")
-        return self._new(_uf(lambda e: base ** int(e), 1)(self.a))
+        return self._new(_uf(lambda e: base ** (int(e) if float(e) == int(e) else float(e)), 1)(self.a))
 
     def __iadd__(self, o):
         self._inplace(o, _add)
